@@ -49,6 +49,9 @@ func minkowskiInternal(pattern Path64, path Path64, isSum bool, isClosed bool) P
 	}
 	patLen := len(pattern)
 	pathLen := len(path)
+	if pathLen == 0 || patLen == 0 {
+		return Paths64{}
+	}
 
 	tmp := make(Paths64, 0, pathLen)
 	for _, pathPt := range path {
